@@ -22,6 +22,7 @@ Definition model_shapes : table :=
   ; ("Inner::follows_from", [SCall TOwn KFollows])
   ; ("Inner::id", [])
   ; ("Span::clone", [SIfInner [SInvoke "Inner::clone"]])
+  ; ("Span::clone_from", [SInvoke "Span::clone"; SDropSpan])
   ; ("Span::drop", [SIfInner [SCall TOwn KTryClose]])
   ; ("Span::dropglue", [SInvoke "Span::drop"])
   ; ("Span::do_enter", [SIfInner [SCall TOwn KEnter]])
@@ -53,6 +54,13 @@ Definition model_shapes : table :=
   ; ("EnteredSpan::deref", [])
   ; ("Entered::dropglue", [SInvoke "Entered::drop"])
   ; ("EnteredSpan::dropglue", [SInvoke "EnteredSpan::drop"; SDropSpan])
+  ; ("Span::impls", [SAttrs "Clone"; SAttrs "Debug"; SAttrs "Drop"; SAttrs "Hash"; SAttrs "PartialEq"])
+  ; ("Inner::impls", [SAttrs "Clone"; SAttrs "Debug"; SAttrs "Hash"; SAttrs "PartialEq"])
+  ; ("Entered::impls", [SAttrs "Debug"; SAttrs "Drop"])
+  ; ("EnteredSpan::impls", [SAttrs "Debug"; SAttrs "Deref"; SAttrs "Drop"])
+  ; ("PhantomNotSend::impls", [SAttrs "Debug"; SAttrs "Sync"])
+  ; ("EnteredSpan::clone", [SInvoke "Span::clone"])
+  ; ("Entered::clone", [])
   ; ("span!(parent)", [SIfEnabled [SInvoke "Span::child_of"] [SInvoke "MacroCallsite::disabled_span"]])
   ; ("span!(ctx)", [SIfEnabled [SInvoke "Span::new"] [SInvoke "MacroCallsite::disabled_span"]])
   ; ("MacroCallsite::disabled_span", [SInvoke "Span::none"])
@@ -77,6 +85,8 @@ Definition model_shapes : table :=
   ; ("WithDispatch::inner_pin_mut", [])
   ; ("WithDispatch::into_inner", [])
   ; ("WithDispatch::dispatch", [])
+  ; ("Instrumented::impls", [SAttrs "Clone"; SAttrs "Debug"; SAttrs "Future"; SAttrs "PinnedDrop"])
+  ; ("WithDispatch::impls", [SAttrs "Clone"; SAttrs "Debug"; SAttrs "Future"])
   ; ("WithDispatch::dropglue", [SBody])
   ; ("WithDispatch::clone", [SBody])
   ; ("futures::Instrument::instrument", [SMk "Instrumented"])
@@ -100,6 +110,8 @@ Definition model_shapes : table :=
   ; ("futures::WithDispatch::inner_pin_mut", [])
   ; ("futures::WithDispatch::into_inner", [])
   ; ("futures::WithDispatch::dispatch", [])
+  ; ("futures::Instrumented::impls", [SAttrs "Clone"; SAttrs "Debug"; SAttrs "Future"; SAttrs "PinnedDrop"])
+  ; ("futures::WithDispatch::impls", [SAttrs "Clone"; SAttrs "Debug"; SAttrs "Future"])
   ; ("futures::WithDispatch::dropglue", [SBody])
   ; ("futures::WithDispatch::clone", [SBody])
   (* the way from a handle's Dispatch to its collector: Dispatch::m, and the Box<C> / Arc<C> impls of Collect a collector may
@@ -314,6 +326,19 @@ Definition emit_tbl (tbl : table) (o : own) (t : tid) (a : action) : option (lis
   | CloneFut f n =>
       obind (kind_of o f) (fun k =>
         oapp (opms (cx (mkEnt EOwned f t) f n []) (fut_shape tbl k "clone")) [MSetKind n k; MCopyDisp f n])
+  | CloneDrop r n =>
+      (* `.clone()` written on the holder itself: on an EnteredSpan guard the row says what that resolves to *)
+      let row := match ents_on o r with
+                 | [e] => match e_kind e with EOwned => "EnteredSpan::clone" | _ => "Span::clone" end
+                 | _ => "Span::clone"
+                 end in
+      oconcat [opms (cx (mkEnt EOwned r t) r n []) (fl row); opms (plain n) (fl "Span::dropglue")]
+  | CloneFrom a b n =>
+      match fl "Span::clone_from" with
+      | Some [(POwn KCloneSpan, _); (POwn KTryClose, _)] =>   (* the clone of the source is made, then the old value dropped *)
+          Some [MCloneTo b n t; MSwap a n; MRelease n t]
+      | _ => None
+      end
   | SetDefault c => Some [MPushDefault t c]
   | CloseScope => Some [MPopDefault t]
   end.
